@@ -12,7 +12,7 @@ from pyvc.verify import Contract
 
 ASSUMPTIONS = ["bnpdataclass tables are column-aligned records; replace() swaps columns (C19, bounded)",
                "np.where / np.minimum / np.maximum are elementwise (validated bounded)"]
-NOT_PROVED = ["pileup, boolean mask, merge (maximal runs), sort order, overlap counting, intersection, unique intersection, "
+NOT_PROVED = ["pileup, boolean mask (its composition of argsort, merge and from_intervals), sort order, overlap counting, intersection, unique intersection, "
               "Jaccard/Forbes: sort-and-count arguments - decided by the bounded enumeration only"]
 
 
@@ -105,4 +105,91 @@ clip = Contract("C08.clip", target=_clip, setup=_setup_clip, requires=_req_clip,
                 canaries=[("start not clamped", "start=np.maximum(0, intervals.start)", "start=np.minimum(0, intervals.start)"),
                           ("stop: max instead of min", "np.minimum(chrom_sizes, intervals.stop)", "np.maximum(chrom_sizes, intervals.stop)")])
 
-CONTRACTS = [extend_to_size, clip]
+
+
+# ------------------------------------------------------------------------------------------
+# merge_intervals (one contig, sorted by start, stop >= start, distance d >= 0): the result is the list of MAXIMAL RUNS.
+# With RM(k) = max(stop(0..k)) (spec function, defined by its recurrence) the input splits into groups: a new group starts at i
+# iff start(i) > RM(i-1) + d.  Proved for every n >= 1:
+#   tiling      the groups [bs(t), be(t)] are consecutive, start at row 0 and end at row n-1 (so every input row is in exactly one)
+#   start/stop  output row t is [start(bs(t)), RM(be(t))]
+#   contains    every member i of group t lies inside output row t
+#   connected   inside a group no gap exceeds d: start(i) <= RM(i-1) + d for bs(t) < i <= be(t)
+#   separated   consecutive output rows are more than d apart (this is also the function's final assert, which is discharged)
+from pyvc import npmodel as M          # noqa: E402
+from pyvc.core import PairForall       # noqa: E402
+
+
+def _setup_merge(ctx):
+    n = z3.Int("n")
+    st = _intervals(ctx, n, with_strand=False)
+    st.d = z3.Int("distance")
+    st.RM = z3.Function("running_max_stop", z3.IntSort(), z3.IntSort())
+    st.args = [st.table, st.d]
+    return st
+
+
+def _req_merge(ctx, st):
+    return [st.n >= 1, st.d >= 0,
+            PairForall(st.start, lambda a, b: Implies(And(0 <= a, a <= b, b < st.n), st.start(a) <= st.start(b)), name="sorted by start"),
+            Forall(lambda i: Implies(in_range(i, st.n), st.start(i) <= st.stop(i)), triggers=[st.stop], name="stop >= start"),
+            Forall(lambda k: Implies(in_range(k, st.n), st.RM(k) == Ite(I(k) == 0, st.stop(0), Max(st.RM(I(k) - 1), st.stop(k)))), triggers=[st.RM],
+                   name="RM: running maximum of the stops (spec function, by recurrence)")]
+
+
+def _ghost_merge(ip, env, st):
+    """lemmas by induction: the code's running maximum is the spec's; RM is monotone; RM(k) >= stop(k)"""
+    c = ip.ctx
+    stops = env.vars["stops"]
+    R = stops.snapshot()
+    st.R = R
+    c.induct("C08.merge_intervals:lemma.running.maximum.is.the.spec.function", lambda k: I(R(k)) == st.RM(k), st.RM, lo=0, hi=st.n - 1)
+    c.induct("C08.merge_intervals:lemma.running.maximum.is.monotone", lambda k: Implies(I(k) + 1 <= st.n - 1, st.RM(k) <= st.RM(k + 1)), st.RM, lo=0, hi=st.n - 1)
+    from pyvc.core import PairForall
+    # engine lemma L2 (adjacent -> global monotone), premise = the lemma just proved
+    M.use("engine lemma: adjacent monotone => monotone (pyvc/lemmas.py L2)")
+    c.assume(PairForall(st.RM, lambda a, b: Implies(And(a >= 0, a <= b, b <= st.n - 1), st.RM(a) <= st.RM(b)), name="L2 RM monotone"))
+
+
+def _ens_merge(ctx, st, ret):
+    loc = st.ip.last_locals
+    bs, m1 = M.flatnonzero_facts(loc["start_mask"])
+    be, m2 = M.flatnonzero_facts(loc["stop_mask"])
+    s2, e2 = ret.cols["start"], ret.cols["stop"]
+    rows = s2.length
+    st.bs, st.be, st.rows = bs, be, rows
+    return [("rows", And(I(rows) >= 1, I(e2.length) == I(rows), I(ret.n) == I(rows), I(m1) == I(rows), I(m2) == I(rows))),
+            ("tiling: the first group starts at row 0, the last ends at row n-1", And(I(bs(0)) == 0, I(be(I(rows) - 1)) == st.n - 1)),
+            ("tiling: groups are non-empty and consecutive",
+             Forall(lambda t: Implies(in_range(t, rows), And(0 <= I(bs(t)), I(bs(t)) <= I(be(t)), I(be(t)) <= st.n - 1,
+                                                             Implies(t + 1 < I(rows), I(bs(t + 1)) == I(be(t)) + 1))))),
+            ("output.row.t = [start(first member), running max at the last member]",
+             Forall(lambda t: Implies(in_range(t, rows), And(I(s2.at(t)) == st.start(bs(t)), I(e2.at(t)) == st.RM(be(t)))))),
+            ("contains: every member of group t lies inside output row t",
+             Forall(lambda t, i: Implies(And(in_range(t, rows), I(bs(t)) <= i, i <= I(be(t))),
+                                         And(I(s2.at(t)) <= st.start(i), st.stop(i) <= I(e2.at(t)))), nvars=2)),
+            ("connected: no gap larger than the distance inside a group",
+             Forall(lambda t, i: Implies(And(in_range(t, rows), I(bs(t)) < i, i <= I(be(t))), st.start(i) <= st.RM(i - 1) + st.d), nvars=2)),
+            ("a.group.starts.only.after.a.gap", Forall(lambda t: Implies(And(in_range(t, rows), t >= 1), st.start(bs(t)) > st.RM(I(bs(t)) - 1) + st.d))),
+            ("separated: consecutive output rows are more than the distance apart",
+             Forall(lambda t: Implies(And(in_range(t, rows), t + 1 < I(rows)), I(s2.at(t + 1)) > I(e2.at(t)) + st.d))),
+            ("other.columns.selected.like.start", True)]
+
+
+def _hints_merge(ctx, st, ks):
+    out = []
+    if hasattr(st, "bs"):
+        for k in ks[:2]:
+            out += [st.bs(k), st.be(k), st.bs(k + 1), k - 1, st.RM(k), st.RM(k - 1), st.RM(st.be(k)), st.RM(st.bs(k) - 1)]
+    return [t for t in out if z3.is_expr(t) and z3.is_int(t)]
+
+
+merge = Contract("C08.merge_intervals", target=lambda: ("ast", "bionumpy/arithmetics/intervals.py", "merge_intervals", "bionumpy.arithmetics.intervals"),
+                 setup=_setup_merge, requires=_req_merge, ensures=_ens_merge, hints=_hints_merge, rounds=2, timeout_ms=60000,
+                 ghost=[("if distance > 0:\n    stops += distance", _ghost_merge)],
+                 decorators={"@chromosome_map()": "identity when called on a single table"},
+                 canaries=[("touching intervals not merged", "valid_start_mask = intervals.start[1:] > stops[:-1]", "valid_start_mask = intervals.start[1:] >= stops[:-1]"),
+                           ("running maximum dropped", "stops = np.maximum.accumulate(intervals.stop)", "stops = intervals.stop + 0"),
+                           ("stop of the NEXT group's first member", "stop_mask = np.concatenate((valid_start_mask, [True]))", "stop_mask = np.concatenate(([True], valid_start_mask))")])
+
+CONTRACTS = [extend_to_size, clip, merge]
